@@ -453,6 +453,10 @@ def float_method(eng, v, n, args, kw):
     if n == "is_integer":
         if v.ival is not None:
             return True
+        if v.dec is not None and v.noise is not None:
+            if v.dec[2] >= len(v.dec[1]) - 1:
+                return mkbool(v.noise.t == 0)       # the decimal is an integer: the double is one iff it is not off by some ulp
+            return False
         if v.dec is not None:
             # shortest decimal digits d1..dn (dn != 0) at exponent e10: an integer iff no digit is fractional
             # (such integers are below 10^16 < 2^53.2 ... exact doubles for n <= 15)
